@@ -124,6 +124,8 @@ def _ntt_jobs(tag, extra_random=None, cfg='fast2', qcases=24000, tcases=600_000)
         J('h_ntt', cfg, 1, 1, only='%s.enum,%s.basis' % (tag, tag), wq=16, wt=16, args=['--enumerate', '--level', '1'], tiers=['thorough'], tag='enum'),
         J('h_ntt', cfg, qcases, 1, only=rnd, wq=16, args=['--level', '0'], tiers=['quick'], tag='rnd'),
         J('h_ntt', cfg, 1, tcases, only=rnd, wt=16, args=['--level', '1'], tiers=['thorough'], tag='rnd'),
+        # the same random tier on the AVX512 build of the library (conditional code paths of that build)
+        J('h_ntt', 'fast5', qcases // 4, tcases // 4, only=rnd, wq=8, wt=16, args=['--level', '0'], tag='rnd5', class_prefix='avx512-build:'),
     ]
 
 
@@ -132,6 +134,8 @@ _NTT_RULE = ('(a) EXHAUSTIVE small scope, every case in a forked child: log maxD
              '(quick: rotated, thorough: full cross); plus the complete single-cell basis at every n<=64 on a reduced configuration set (linearity); '
              '(b) rapidcheck-random configurations up to n=2^11 (thorough 2^16), ncols<=12, threads<=64, arbitrary uint64 nphase/nblock. Inputs mix canonical, non-canonical and edge representations. '
              'Oracle: naive O(n^2) DFT for n<=64, independent recursive FFT above (validated against the naive DFT at start); exact-size heap buffers; abort/SIGSEGV of the child = failure. '
+             'Random cases also vary HOW the call is made: one earlier call on the same object, another (smaller / larger / already destroyed / used) instance constructed first, source-destination-scratch as separate heap blocks or touching each other in one arena (six orders, sentinel words at both ends), '
+             'the call made by one member of an enclosing parallel region, special columns (zero, constant, one spectral line, degree-1, all p-1) alone or next to generic ones, wide matrices up to 1100 columns; a quarter of the random budget runs on the AVX512 build. '
              'Non-trivial: n<maxDomain, nphase!=3, effective nblock>1, NULL destination, caller buffer, explicit threads, size-1/no-op shapes. distinct = distinct configuration tuples (incl. data seed).')
 _NTT_CLASSES = ['cfg:n<maxDomain', 'cfg:nphase!=3', 'cfg:effective-nblock>1', 'cfg:dst=NULL', 'cfg:dst=other', 'cfg:caller-buffer', 'cfg:explicit-threads', 'cfg:n=1', 'data:basis']
 
@@ -183,8 +187,8 @@ HARNESSES['h_poseidon'] = dict(src='h_poseidon.cpp')
 
 PROPS['C06'] = dict(
     title='Poseidon permutation: scalar, AVX2, AVX512 agree with the spec on all states',
-    jobs=[J('h_poseidon', 'fast5', 1_800_000, 200_000_000, only='c06.perm,c06.backsolved', wq=12),
-          J('h_poseidon', 'fast2', 600_000, 50_000_000, only='c06.perm,c06.backsolved', wq=4, class_prefix='avx2-build:'),
+    jobs=[J('h_poseidon', 'fast5', 1_800_000, 200_000_000, only='c06.perm,c06.backsolved,c06.partial', wq=12),
+          J('h_poseidon', 'fast2', 600_000, 50_000_000, only='c06.perm,c06.backsolved,c06.partial', wq=4, class_prefix='avx2-build:'),
           J('h_poseidon', 'fast5', 1, 1, only='c06.kat', wq=1, wt=1, args=['--enumerate'], tag='kat'),
           J('h_poseidon', 'fast2', 1, 1, only='c06.kat', wq=1, wt=1, args=['--enumerate'], tag='kat', class_prefix='avx2-build:')],
     rule='rapidcheck-generated 12-element states (AVX512: pairs of states in the interleaved layout) from the boundary element classes, all-equal and one-hot states, and BACK-SOLVED states: '
@@ -205,15 +209,20 @@ PROPS['C07'] = dict(
           J('h_poseidon', 'fast2', 1, 1, only='c07.huge', wq=1, wt=4, args=['--enumerate', '--level', '0'], tiers=['quick'], tag='huge'),
           J('h_poseidon', 'fast2', 1, 1, only='c07.huge', wq=1, wt=4, args=['--enumerate', '--level', '1'], tiers=['thorough'], tag='huge'),
           J('h_poseidon', 'fast5', 40_000, 4_000_000, only='c07.random', wq=8, wt=16, tag='rnd'),
-          J('h_poseidon', 'fast2', 10_000, 1_000_000, only='c07.random', wq=4, wt=8, tag='rnd', class_prefix='avx2-build:')],
+          J('h_poseidon', 'fast2', 10_000, 1_000_000, only='c07.random', wq=4, wt=8, tag='rnd', class_prefix='avx2-build:'),
+          # "read exactly the declared input length", byte-exact: the same lengths on the AddressSanitizer builds with exact-size inputs (a read that stays
+          # inside the last 32-byte lane never reaches the guard page of the plain builds)
+          J('h_poseidon', 'san5', 1, 1, only='c07.lengths', wq=8, wt=16, args=['--enumerate', '--level', '0'], tag='asan', class_prefix='asan-build:'),
+          J('h_poseidon', 'san2', 1, 1, only='c07.lengths', wq=8, wt=16, args=['--enumerate', '--level', '0'], tag='asan2', class_prefix='asan-avx2-build:')],
     rule='EVERY length 0..200 enumerated (4 contents each, thorough 16) plus rapidcheck-random lengths up to 5000 with explicit boundary-class prefixes; contents mix canonical / non-canonical / edge representations. '
          'Oracle: reference sponge (zero capacity, 8 elements per block, zero padding, first four outputs fed back) on the reference permutation; pass-through and zero padding for length <= 4. '
          'linear_hash_seq, linear_hash (AVX2) and linear_hash_avx512 (two consecutive inputs) must all return it. Inputs are exact-size heap blocks followed by junk that is varied (metamorphic: digest must not change); '
-         'an 8-element canary follows the 4 (8) output elements; the input must stay unmodified. Non-trivial: length <= 8 or not a multiple of 8.',
+         'an 8-element canary follows the 4 (8) output elements; the input must stay unmodified. The second input of the paired AVX512 variant is independent of the first or related to it (identical, one element / the last element changed, common prefix). '
+         'Lengths around every power of two up to 2^16 are sampled, one input of 2^24+1 elements (thorough: four lengths above 2^24) is hashed by the scalar and AVX2 variants; the enumeration is repeated on the ASan builds with exact-size inputs (byte-exact read footprint). Non-trivial: length <= 8 or not a multiple of 8.',
     expected_classes=['lh:pass-through(<=4)', 'lh:single-block(5..8)', 'lh:partial-last-block', 'lh:multiple-of-8', 'lh:empty'],
     technique='exhaustive enumeration of lengths 0..200 + rapidcheck-random lengths, reference-sponge oracle, metamorphic junk-after-input relation',
     level_text='All lengths up to 200 (every residue mod 8 many times, both sides of the pass-through threshold) are enumerated and longer ones sampled; three backends against an independent sponge.',
-    level_note='Trusted: reference permutation/sponge. Read-exactly-the-declared-length is decided here by the junk metamorphic relation and, under ASan, by C18.',
+    level_note='Trusted: reference permutation/sponge. Read-exactly-the-declared-length is decided by guard pages right after the input (plain builds), by the junk metamorphic relation, and byte-exactly by the ASan jobs of this check.',
     assumptions=['AVX512 variant receives two inputs of equal length stored consecutively'],
 )
 PROPS['C08'] = dict(
@@ -314,7 +323,7 @@ PROPS['C16'] = dict(
          'one register, planar Element_avx, three separate registers, precomputed challenge sums as array or registers), strides from the parameter names). A generic driver draws coefficient pools from the boundary element classes, '
          'input strides from {0,1,2,3,4,5,7,61,1000} independently per operand (overlapping and repeated positions allowed), output strides from {3,..,1000} and non-overlapping output index arrays, lays operands out in exact-size '
          'junk-filled arenas, consistent challenge sums (b0+b1, b0+b2, b1+b2; sometimes as +p aliases), calls the overload and compares element k with the C09 reference on the k-th designated operands (canonical); '
-         'every non-designated output cell must keep its sentinel; inputs unchanged; metamorphic rerun with different junk. Non-trivial: stride not in {1,3}, non-identity index array, non-canonical coefficient.',
+         'every non-designated output cell must keep its sentinel; inputs unchanged; metamorphic rerun with different junk. The three planar<->interleaved copies (copy_batch, copy_avx, copy_avx512) have their own property (c16.copies: exact 12/24-word destinations ending at a guard page or inside sentinels). Non-trivial: stride not in {1,3}, non-identity index array, non-canonical coefficient.',
     expected_classes=['shape:stride-0', 'shape:overlapping-input-stride', 'shape:large-stride', 'shape:permuted/sparse-input-index', 'shape:permuted/sparse-output-index', 'shape:challenge-sums-operand', 'shape:non-canonical-operand'],
     technique='table-driven rapidcheck property-based testing of all 156 overloads against the schoolbook extension reference; sentinel arenas; metamorphic junk relation',
     level_text='All 156 overloads are exercised thousands of times per run with independent strides per operand, so that a confused stride, coefficient index or operand order is visible; stray writes are caught by sentinels.',
@@ -425,3 +434,22 @@ PROPS['C19']['jobs'].append(J('fuzz_ntt_history', 'fuzz', 40_000, 6_000_000, wq=
 PROPS['C15']['rule'] += (' Supplement: libFuzzer target fuzz_fromstring (bytes -> radix, text; GMP\'s own parser decides validity: valid integers must map to their floor residue through fromString and fromScalar and survive a toString round trip, '
                          'invalid strings must raise std::invalid_argument; ASan+UBSan; -runs bound, fresh corpus + 5 seed inputs; only crash artifacts count).')
 PROPS['C19']['rule'] += (' Supplement: libFuzzer target fuzz_ntt_history (FuzzedDataProvider -> the same command grammar, state rebuilt per input, fresh-object and DFT/LDE oracle inside the target, ASan+UBSan).')
+
+# ---- additions of the third strengthening round (appended to the rule texts) -------------------------------------------------------------------
+PROPS['C06']['rule'] += (' Partial rounds are reached by back-solving too (c06.partial): the state entering partial round r (r = 0..21, or the state leaving the last one) is chosen and the permutation input computed through the inverse '
+                         'rounds; the s-box output of lane 0 and one other lane are solved against the round\'s sparse-matrix coefficient so that the residue of the lane product, or the low 64 bits of the INTEGER product, sit on a boundary. '
+                         'Pairs of states for the two-state AVX512 routine are also identical / equal in the rate part / equal in the capacity part / different in one element.')
+PROPS['C06']['expected_classes'] += ['backsolved:partial-round-1..10', 'backsolved:partial-round-11..21', 'partial:integer-low-word-targeted-lane-product']
+PROPS['C09']['rule'] += ' Inversions are followed by the inversion of an element differing in one coefficient (and the first one repeated); batchInverse lengths reach 65537 (4095..65537 odd and even).'
+PROPS['C10']['rule'] += (' Every inversion is followed by the inversion of a closely related operand (neighbour, one bit flipped, same low / high word, negative) and repeated; half of the refusal cases re-execute the harness binary so that the '
+                         'refused inversion is the very first inversion of a fresh process.')
+PROPS['C10']['expected_classes'] += ['refuse:zero-operand(first inversion of a fresh process)', 'inv:second-call-related-operand']
+for _p in ('C13', 'C14'):
+    PROPS[_p]['rule'] += (' Coefficient arrays usually live at ONE persistent address per size and placement (same pointer, changing content) and are confined now and then to a bit-width band (8..63 bits, top-heavy) against large states; '
+                          'under ASan the deliberately misaligned placement is kept (start 8 bytes off, exact end).')
+PROPS['C16']['rule'] += (' Further call forms: both array inputs given by the same base pointer, strides >= 2^32 on sparse 32 GiB arenas (never for parameters declared 32-bit), output extents ending exactly at a guard page, per-lane index arrays that are '
+                         'consecutive except for one lane or wrap round a cyclic window, coefficients with vanishing sums (c1+c2=0, c0+c1+c2=0, equal, embedded base elements).')
+PROPS['C17']['rule'] += (' Further call forms (one per case, chosen by the generator): both array inputs are ONE array (same base pointer, two strides / index lists); the output array is the first input array (same designated positions); a by-value scalar '
+                         'argument is passed as an lvalue living in a designated output cell (only for parameters declared by value); the output extent ends exactly at a guard page; strides >= 2^32 on sparse arenas.')
+PROPS['C17']['expected_classes'] += ['form:both-inputs-one-array(same-pointer)', 'form:output-array-is-first-input(in-place)', 'form:by-value-scalar-lives-in-an-output-cell', 'shape:stride>=2^32']
+
